@@ -3,6 +3,7 @@ from rules import shell as S
 from rules import limits as LM
 from rules import shape as SH
 from rules import locking as L
+from rules import misc as M
 
 
 def run(ctx):
@@ -12,6 +13,7 @@ def run(ctx):
     LM.flw1_limit_arithmetic(ctx)
     SH.flw8_shape(ctx)
     L.lck10_no_reentrant_acquisition(ctx, scope_prefixes=['engine::execution::query_task::', 'scheduler::shared_sender::', 'locustdb::'])
+    M.ord13_top_n_limit_zero(ctx)
     return ctx.finish(
         'Static analysis of compiler MIR + syntax tree: the text -> AST -> Query -> task shell has '
         'no explicit panic source (unwrap/expect/panic!/assert/index) except tabled, reasoned '
